@@ -9,6 +9,7 @@
 -/
 import YalafiVerif.Proofs.Replace
 import YalafiVerif.Proofs.PlainRepl
+import YalafiVerif.Proofs.ReplGeneral
 import YalafiVerif.Generated.Init
 namespace Yalafi
 
@@ -79,6 +80,28 @@ theorem C13_tex2txt_plain_repl (T : PTables) (o : Options) (fs : FS) (thresh : N
       r.txt.length = r.pos.length ∧ (∀ p ∈ r.pos, 1 ≤ p ∧ p ≤ src.length) ∧
       r.unknowns = [] ∧ r.diags = st1.diags :=
   tex2txt_plain_repl T o fs thresh src fuel st1 hdefs hextr hrepl hunkn hinit h hf
+
+/-- **for EVERY source text**: the option `--repl` does nothing but apply `replace_phrases` to the text and the
+    position list that the filter returns without it (all theorems above then apply to the filter's output) -/
+theorem C13_tex2txt_repl_commutes (T : PTables) (fuel : Nat) (latex : Str) (o : Options) (thresh : Nat) (fs : FS)
+    (r0 : T2TResult) (hunkn : o.unkn = false)
+    (h0 : tex2txt T fuel latex { o with hasRepl := false } false thresh fs = .ok r0) :
+    tex2txt T fuel latex { o with hasRepl := true } false thresh fs =
+      .ok { r0 with
+            txt := (replacePhrases T.toTables r0.txt (r0.pos.map (· - 1)) o.repl).1,
+            pos := (replacePhrases T.toTables r0.txt (r0.pos.map (· - 1)) o.repl).2.map (· + 1) } :=
+  tex2txt_repl_commutes T fuel latex o thresh fs r0 hunkn h0
+
+/-- … hence, for every source: equal lengths, and every position reported with the list is a position
+    reported without it (so it lies in the source whenever C01 holds for the run without the list) -/
+theorem C13_tex2txt_repl_ok (T : PTables) (fuel : Nat) (latex : Str) (o : Options) (thresh : Nat) (fs : FS)
+    (r0 : T2TResult) (hunkn : o.unkn = false)
+    (h0 : tex2txt T fuel latex { o with hasRepl := false } false thresh fs = .ok r0)
+    (hlen : r0.txt.length = r0.pos.length) :
+    ∃ r, tex2txt T fuel latex { o with hasRepl := true } false thresh fs = .ok r ∧
+      r.txt.length = r.pos.length ∧ (∀ p ∈ r.pos, p - 1 ∈ r0.pos.map (· - 1)) ∧
+      r.unknowns = r0.unknowns ∧ r.diags = r0.diags :=
+  tex2txt_repl_ok T fuel latex o thresh fs r0 hunkn h0 hlen
 
 /-- options with a replacement list: initialisation of the parser does not look at it -/
 def replOptions (lines : List Str) : Options := { Generated.defaultOptions with repl := lines, hasRepl := true }
